@@ -316,11 +316,16 @@ func movedJustifications(p *prog.Program, obs []report.Obligation, stale []strin
 						if cal == to || walk(cal, d-1) {
 							return true
 						}
+						for _, af := range cal.AnonFuncs {
+							if af == to {
+								return true
+							}
+						}
 					}
 				}
 			}
 			for _, af := range f.AnonFuncs {
-				if walk(af, d) {
+				if af == to || walk(af, d) {
 					return true
 				}
 			}
@@ -349,6 +354,12 @@ func movedJustifications(p *prog.Program, obs []report.Obligation, stale []strin
 				continue
 			}
 			f := p.Func(fid)
+			if f == nil {
+				// the justified closure itself moved: start from the function it belonged to
+				if k := strings.Index(fid, "$"); k > 0 {
+					f = p.Func(fid[:k])
+				}
+			}
 			if f == nil || !reaches(f, g) {
 				continue
 			}
